@@ -180,6 +180,94 @@ pub fn sweeps(ctx: &Ctx) -> Vec<Sweep> {
         }));
     }
 
+    // (a3) the value of one digest: every other digest one could compute from the package's own bytes, and the correct
+    // value changed in two positions by the same amount
+    {
+        use sha2::Digest;
+        let hx = |b: &[u8]| hex::encode(b);
+        let mut cases: Vec<(usize, u32, Val, String)> = vec![];
+        for (bi, (_, parts)) in bases.iter().enumerate().take(4) {
+            let (good, _) = with_digests(parts, &DigestPlan { md5: D::Correct, sha1: D::Correct, sha256: D::Correct, payload: D::Correct, algo: 8 });
+            let Some(g) = split(&good) else { continue };
+            let hbytes = g.main_header().encode();
+            let both: Vec<u8> = [&hbytes[..], &g.payload[..]].concat();
+            let regions: [(&str, &[u8]); 4] = [("the header", &hbytes), ("the payload", &g.payload), ("header + payload", &both), ("nothing", &[])];
+            let mut values: Vec<(String, Vec<u8>)> = vec![];
+            for (rn, r) in regions {
+                values.push((format!("MD5 of {}", rn), md5_raw(&[r])));
+                values.push((format!("SHA-1 of {}", rn), sha1::Sha1::digest(r).to_vec()));
+                values.push((format!("SHA-224 of {}", rn), sha2::Sha224::digest(r).to_vec()));
+                values.push((format!("SHA-256 of {}", rn), sha2::Sha256::digest(r).to_vec()));
+                values.push((format!("SHA-384 of {}", rn), sha2::Sha384::digest(r).to_vec()));
+                values.push((format!("SHA-512 of {}", rn), sha2::Sha512::digest(r).to_vec()));
+            }
+            for target in [SIGTAG_MD5, SIGTAG_SHA1, SIGTAG_SHA256, TAG_PAYLOADDIGEST] {
+                for (what, raw) in &values {
+                    if target == SIGTAG_MD5 {
+                        cases.push((bi, target, Val::Bin(raw.clone()), what.clone()));
+                        cases.push((bi, target, Val::Bin(hx(raw).into_bytes()), format!("{} as hexadecimal text", what)));
+                    } else {
+                        for (enc, t) in [("lower-case", hx(raw)), ("upper-case", hx(raw).to_uppercase())] {
+                            let v = if target == TAG_PAYLOADDIGEST { Val::strs(&[&t]) } else { Val::str(&t) };
+                            cases.push((bi, target, v, format!("{} in {} hexadecimal", what, enc)));
+                        }
+                    }
+                }
+                // the correct value with positions i < j changed by the same amount
+                let correct: Vec<u8> = match target {
+                    SIGTAG_MD5 => md5_raw(&[&hbytes, &g.payload]),
+                    SIGTAG_SHA1 => sha1_hex(&hbytes).into_bytes(),
+                    SIGTAG_SHA256 => sha256_hex(&hbytes).into_bytes(),
+                    _ => sha256_hex(&g.payload).into_bytes(),
+                };
+                for i in 0..correct.len() {
+                    for j in i + 1..correct.len() {
+                        for delta in [1u8, 0x80] {
+                            // keep texts ASCII
+                            if target != SIGTAG_MD5 && delta == 0x80 {
+                                continue;
+                            }
+                            let mut c = correct.clone();
+                            c[i] ^= delta;
+                            c[j] ^= delta;
+                            let v = match target {
+                                SIGTAG_MD5 => Val::Bin(c),
+                                TAG_PAYLOADDIGEST => Val::strs(&[&String::from_utf8_lossy(&c)]),
+                                _ => Val::str(&String::from_utf8_lossy(&c)),
+                            };
+                            cases.push((bi, target, v, format!("the correct value with positions {} and {} changed by {:#x}", i, j, delta)));
+                        }
+                    }
+                }
+            }
+        }
+        let b5 = bases.clone();
+        let n = cases.len() as u64;
+        v.push(Sweep::new("digest-values", format!("four bases × one of the four digests replaced ({} packages) by: the MD5 / SHA-1 / SHA-224 / SHA-256 / SHA-384 / SHA-512 of the header, of the payload, of both, of nothing (lower- and upper-case hexadecimal; for the MD5 tag raw and as text) — so also by the right digest of the wrong algorithm or region — and by the correct value changed in every pair of positions by the same amount; the other three digests are correct", n), n, move |i, acc| {
+            acc.evals += 1;
+            let (bi, target, val, what) = &cases[i as usize];
+            let (name, parts) = &b5[*bi];
+            let all = DigestPlan { md5: D::Correct, sha1: D::Correct, sha256: D::Correct, payload: D::Correct, algo: 8 };
+            let x = if *target == TAG_PAYLOADDIGEST {
+                with_digests_keep(parts, &all, Some(val.clone()), Some(Val::Int32(vec![8]))).0
+            } else {
+                let (good, _) = with_digests(parts, &all);
+                let Some(mut g) = split(&good) else { return };
+                set(&mut g.sig, *target, Some(val.clone()));
+                g.join().0
+            };
+            let case = || json!({"base": name, "digest_tag": target, "value": what, "bytes_hex": if x.len() < 4096 { vlib::hex(&x) } else { String::new() }});
+            if let Some(vd) = judge("digest-values", &x, i, &case, acc) {
+                if vd != DigestVerdict::Ok {
+                    acc.nontrivial += 1;
+                }
+                if i % 499 == 0 {
+                    acc.sample(i, || json!({"base": name, "digest_tag": target, "value": what, "reference": format!("{:?}", vd)}));
+                }
+            }
+        }));
+    }
+
     // (b) every single-bit flip of two packages carrying digests (all regions)
     let all4 = with_digests(&bases[0].1, &DigestPlan { md5: D::Correct, sha1: D::Correct, sha256: D::Correct, payload: D::Correct, algo: 8 }).0;
     let built = { crate::corpus::one_file().build_bytes(&env).unwrap().1 };
